@@ -474,6 +474,11 @@ class EventRouter(logging.Handler):
     def close(self):
         pass
 
+    def createLock(self):
+        # A vproc may be parked inside emit(); a real lock held across a park would block
+        # the other vproc threads outside the scheduler's control.
+        self.lock = None
+
 
 _event_router = EventRouter()
 
